@@ -6,7 +6,7 @@ import ast
 from framelint.core import rule, Ctx
 from framelint.srcmodel import walk_own, AnalysisError
 from framelint.canon import (canon_function, show, S, to_poly, mk_lt, mk_and, mk_or, mk_not, mk_eq, k_num, k_str, contains,
-                             skey, atoms_of, Sigma, Poly, diff_paths, K_FALSE, K_TRUE)
+                             skey, atoms_of, Sigma, Poly, diff_paths, K_FALSE, K_TRUE, K_NONE)
 from framelint.cfg import EXIT, ENTRY
 from .common import (GEOM, NETLIST, MODULE, NTYPES, YREAD, sigma_xy, stmt_calls, exit_facts, facts_text, call_name,
                      norm_stmt, assert_conjuncts, enclosing_loops, kw_value)
@@ -120,8 +120,11 @@ def r1(ctx: Ctx) -> None:
     from framelint.peval import paths
     ctx.site(fa.where, "scalar area > 0 and every per-region area > 0")
     area = ("p", 0)
-    scalar_ok = any(st[0] == "if" and contains(st[1], "isinstance") and mk_lt(k_num(0), ("c", ("g", "float"), (area,), ())) in top_asserts(st[2])
-                    or (st[0] == "if" and contains(st[1], "isinstance") and mk_lt(k_num(0), area) in top_asserts(st[2])) for st in ca)
+    # every way to a result either took the mapping form (asserted to be a dict) or asserted the scalar to be > 0
+    pos = {mk_lt(k_num(0), ("c", ("g", "float"), (area,), ())), mk_lt(k_num(0), area)}
+    is_map = ("c", ("g", "isinstance"), (area, ("g", "dict")), ())
+    done = [(set(l), o) for l, o in paths(ca, fall=K_NONE) if not (isinstance(o, tuple) and o[:1] == ("raise",))]
+    scalar_ok = bool(done) and all(is_map in l or (pos & l) for l, o in done) and any(pos & l for l, o in done)
     from .common import dict_loops as _dict_loops
     dict_loops = _dict_loops(ca, area)
     dict_ok = False
@@ -303,7 +306,7 @@ def r1(ctx: Ctx) -> None:
     for lp in _loops(cpr, lambda lp: lp[2] == ("c", ("g", "range"), (k_num(4),), ())):
         e_ = ("s", ("p", 0), lp[1])
         ta_ = top_asserts(lp[3])
-        if mk_not(mk_lt(e_, k_num(0))) in ta_ and any(t[0] == "c" and t[1] == ("g", "isinstance") and t[2][0] == e_ for t in ta_):
+        if mk_not(mk_lt(e_, k_num(0))) in ta_ and any(contains(t, ("g", "isinstance")) and contains(t, e_) for t in ta_):
             okr = True
     if not okr:
         ctx.report(fpr.where, "reject-rect-fields", "parse_yaml_rectangle does not check all four of x, y, w, h to be numbers >= 0", lineno=fpr.node.lineno)
